@@ -765,3 +765,41 @@ Q(name="e2_kill", props=["C08"], func=r"connection/mod\.rs:245:1[^>]*>::kill$",
   functions=["Connection::kill"], pre=lambda c: "true", post=kill_post,
   bounds="every connection state and error: all timers are stopped, the state becomes Drained and exactly one Drained event is queued for the endpoint",
   replay=("conn_kill_native", lambda m: [dict(state=s) for s in range(0, 3)]))
+
+
+# ------------------------------------------------------------------ C09: switching to the next remote CID retires the skipped ones and re-registers the reset token
+def urc_post(c, p):
+    st = p.p.state
+    nx = p.called(r"CidQueue::next$")
+    ext = p.called(r"Vec.*::extend")
+    srt = p.called(r"set_reset_token$")
+    if len(nx) != 1:
+        return "false"
+    res = nx[0][2]                      # "call:CidQueue::next(..)": Option<(ResetToken, Range<u64>)>
+    got = eq(c.inp(res + "#discr", I64), bv(1))
+    if not ext and not srt:
+        return not_(got)                # nothing to switch to: nothing is retired, nothing re-registered
+    if len(ext) != 1 or len(srt) != 1:
+        return "false"
+    conj = [got]
+    # the retired range goes to the Data space's pending RETIRE_CONNECTION_ID list ...
+    recv, rng = ext[0][1][0], ext[0][1][1]
+    want_suffix = ".%d.%d" % (c.field("connection/spaces.rs", "PacketSpace", "pending"), c.field("connection/spaces.rs", "Retransmits", "retire_cids"))
+    if recv[0] != "ref" or not str(recv[1]).endswith(want_suffix) or "SpaceId', 2)" not in str(recv[1]):
+        return "false"
+    snap = _Snap(st, ext[0][3])
+    for f in (".0", ".1"):
+        conj.append(eq(c.ex.read_key(snap, rng[1] + f, BV64).t, c.inp(res + "@Some.0.1" + f, BV64)))
+    # ... and the token that came with the new CID is the one announced to the endpoint
+    tok = srt[0][1][1]
+    snap2 = _Snap(st, srt[0][3])
+    for i in range(16):
+        conj.append(eq(c.ex.read_key(snap2, tok[1] + ".0[%d]" % i, U8).t, c.inp(res + "@Some.0.0.0[%d]" % i, U8)))
+    return and_(*conj)
+
+
+Q(name="e2_update_rem_cid", props=["C09"], func=r"connection/mod\.rs:245:1[^>]*>::update_rem_cid$",
+  pure=[r"CidQueue::next$", r"index_mut$"], functions=["Connection::update_rem_cid"],
+  pre=lambda c: ule(c.inp("call:CidQueue::next(*_1.%d)#discr" % c.field("connection/mod.rs", "Connection", "rem_cids"), I64), bv(1)), post=urc_post,
+  bounds="every result of CidQueue::next (covered by cidq_next_step): the retired sequence range is queued on the Data space and the new CID's reset token is the one handed to set_reset_token; Vec::extend / set_reset_token opaque",
+  replay=("conn_update_rem_cid_native", lambda m: [dict(have_next=0), dict(have_next=1)]))
